@@ -66,6 +66,9 @@ public:
     // use to create/set entries in the matrix
     double Get(int p, int q);
     bool PCGSolve(int flag);	// flag==true if guess for V present;
+#ifdef XFEMM_VERIF
+    bool PCGSolveImpl(int flag); // the solver proper; PCGSolve wraps it with the verification hooks
+#endif
     void MultPC(const double *X, double *Y);
     void AddTo(double v, int p, int q);
     void MultA(double *X, double *Y);
